@@ -104,6 +104,11 @@ def fix_prog(ctx):
             text = name + ": " + text
         if labs is not None and p["var"] == "left":
             head = labs + " " * (5 - len(labs)) + " "
+        elif labs is not None and p["sym"] == "cont":
+            # column 6 of an initial line may be a blank or a zero
+            if "col6" not in ctx.holes:
+                col6 = ctx.chars("col6", 1, " 0")
+            head = LAY.fixed_line(labs, "", col6)
         else:
             head = LAY.fixed_line(labs, "")
         if k != li:
